@@ -226,8 +226,8 @@ def latest_cases(chk, drv, work):
     for it in range(chk.n(6, 16)):
         folder = os.path.join(work, 'lat_%d' % it)          # underscore and dot in the folder name on purpose
         # also characters that mean something to glob (every position of the list is used in turn: no draw decides whether a class occurs)
-        folder = folder + ['[1]', '', '_[a-c]x', '_v1.5', '_run*2', '.d_x', '_q?', '_grid_8x8x4', '.grid_16'][it % 9]
-        if rng.random() < 0.3:
+        folder = folder + ['[1]', '', '_grid_8x8x4', '_[a-c]x', '_v1.5', '.grid_16', '_run*2', '.d_x', '_q?'][it % 9]
+        if rng.random() < 0.3 or it % 4 == 2:
             # a parent directory whose name looks like a checkpoint name
             folder = os.path.join(work, 'scan_grid_%d' % rng.choice([3, 16, 250]), os.path.basename(folder))
             os.makedirs(os.path.dirname(folder), exist_ok=True)
@@ -242,11 +242,14 @@ def latest_cases(chk, drv, work):
         if len(times) == 1 and times[0] == 0:
             times = [rng.choice([7, 120, 4500])]
         rng.shuffle(times)
+        if it % 2 == 0 and len(times) > 1 and times[-1] == max(times):
+            times[0], times[-1] = times[-1], times[0]      # the newest checkpoint (largest time) is NOT the file written last
         want_time = rng.choice([None, None, rng.choice(times)])
         if it % 3 == 1 and len(times) > 1:
             want_time = rng.choice(sorted(times)[:-1])           # an explicit time point that is NOT the newest checkpoint
-        if it % 9 in (0, 2):
-            want_time = None                                     # folder names with [ ]: the restart looks for the latest checkpoint itself
+        if it % 9 in (0, 2, 3, 5):
+            # folder names with [ ] or that look like checkpoint names: the restart looks for the latest checkpoint itself
+            want_time = None
         layname = rng.choice(sorted(STD4))
         base = np.random.RandomState(it).normal(size=npts)
         cfile = os.path.join(work, 'c_%d.json' % it)
